@@ -253,6 +253,27 @@ func (w *World) tamperCatalogue(req map[string]any, kind ref.OpKind, alg uint, s
 		editHeader("alg-removed", func(m map[string]any) { delete(m, "alg") })
 		editHeader("kid-altered", func(m map[string]any) { m["kid"] = "attacker-key" })
 		add("header/not-json", withJWS(joinJWS([]byte("{alg"), p, sig)))
+		// the key holder signs over a header the rules do not allow: an algorithm name that is not literally an allowed one (white
+		// space around it, another letter case), members other than alg / kid. The signature is genuine; the operation is still refused.
+		if alg, isStr := hm["alg"].(string); isStr && alg != "" {
+			holder := w.Pool.Get(signIdx)
+			resigned := func(label string, mod func(m map[string]any)) {
+				m := ref.Clone(hm).(map[string]any)
+				mod(m)
+				add("header-resigned/"+label, withJWS(rawJWS(m, p, holder)))
+			}
+			for i, v := range []string{" " + alg, alg + " ", "\t" + alg, alg + "\n", alg + "\u00a0", "\u2003" + alg, strings.ToLower(alg), alg + "\x00"} {
+				v := v
+				if v == alg {
+					continue
+				}
+				resigned(fmt.Sprintf("alg-variant-%d", i), func(m map[string]any) { m["alg"] = v })
+			}
+			resigned("typ", func(m map[string]any) { m["typ"] = "JWT" })
+			resigned("b64-true", func(m map[string]any) { m["b64"] = true })
+			resigned("crit", func(m map[string]any) { m["crit"] = []any{"alg"} })
+			resigned("cty", func(m map[string]any) { m["cty"] = "json" })
+		}
 	}
 
 	// (h) compact form
